@@ -115,7 +115,9 @@ class DerivedStringsSpec(FunctionSpec):
     probe = "derived_strings"
 
     def variants(self, tier):
-        return [(1,), (2,)] + ([(3,)] if tier == "thorough" else [])
+        # (3, "one-unit"): three categories of one quantity type sharing one unit symbol - where joined
+        # exponents cancel part-way (m2 . m-2 . m); the general three-entry shape is thorough only
+        return [(1,), (2,), (3, "one-unit")] + ([(3,)] if tier == "thorough" else [])
 
     def setup(self, I, variant):
         n = variant[0]
@@ -125,6 +127,8 @@ class DerivedStringsSpec(FunctionSpec):
         ents = fresh_entries(P, n, "d")
         if n > 1:
             P.assume(z3.Distinct(*[c for c, _, _ in ents]), "pre:dict keys are distinct")
+        if len(variant) > 1 and variant[1] == "one-unit":
+            P.assume(z3.And(*[z3.And(u == ents[0][1], S(R.C_qt, c) == S(R.C_qt, ents[0][0])) for c, u, e in ents[1:]]), "variant:one unit symbol, one quantity type")
         items = []
         for c, u, e in ents:
             R.touch(c, u)
